@@ -17,7 +17,7 @@ def run(seed, pid, tier, jobs):
     env = dict(os.environ, VERIF_REPO=CLONE, VERIF_MAX_REPLAY="2", VERIF_EVIDENCE_DIR="/var/tmp/asefile-seed-evidence", VERIF_REPLAY_ROOT="/var/tmp/asefile-seed-replays/" + seed)
     t0 = time.time()
     p = sh([os.path.join(VERIF, "check"), pid, "--tier", tier, "--jobs", str(jobs)], env=env, cwd=VERIF)
-    viol = [l for l in p.stdout.splitlines() if l.startswith("VIOLATION") or l.startswith("  harness=")]
+    viol = [l for l in p.stdout.splitlines() if l.startswith("VIOLATION") or l.startswith("  harness=") or l.startswith("  palette mapper")]
     inc = [l for l in p.stdout.splitlines() if l.startswith("INCONCLUSIVE")]
     return dict(check=pid, tier=tier, exit=p.returncode, wall_s=round(time.time() - t0), violation_lines=viol[:8], inconclusive=[x[:200] for x in inc[:4]])
 
